@@ -521,6 +521,25 @@ func c07GenCase(c *Case, group string, cat *c07Catalogue, nShifts int) {
 		c07Variant(c, base, ds0, obs0, group, seed, cat, base.style, 'f', "holder")
 	}
 
+	// (g) no final line break: when the construct is on the last line of the file, the same file
+	// without its final line break must give the same diagnostics at the same positions
+	if nl := c07CountLines(base.src); base.target.pos.Line == nl && strings.HasSuffix(base.src, "\n") {
+		src2 := strings.TrimSuffix(base.src, "\n")
+		ds2, err := lintSrc(src2)
+		c.Eval(1)
+		if err == nil {
+			c07Bounds(c, "generated:"+group+":no-final-line-break", src2, ds2, func() map[string]interface{} { return c07Detail(base, ds2, nil) })
+			c.Count("last_line_without_final_break_compared", 1)
+			c.SetAdd("last_line_without_final_break", group+"|"+base.styleName())
+			a, b := sortedDiagStrings(ds0), sortedDiagStrings(ds2)
+			if strings.Join(a, "\n") != strings.Join(b, "\n") {
+				c.Violation(fmt.Sprintf("C07:no-final-line-break:%s:%s", base.group, base.site),
+					fmt.Sprintf("%s construct on the last line (site %s): removing the final line break of the file changed the diagnostics", base.kind, siteName),
+					map[string]interface{}{"src_without_final_break": src2, "with": a, "without": b})
+			}
+		}
+	}
+
 	// (e) no interference: a second diagnosed construct in a neighbouring scalar must not move
 	// the report of the first one
 	c07Neighbour(c, base, ds0, group, seed, cat)
@@ -886,6 +905,20 @@ func c07Properties(c *Case, base *c07Built, ds0 []Diag, obs0 []c07Obs, group str
 			}
 		}
 	}
+	// the same rendering as the last line of a file without final line break
+	if c07CountLines(v1.src) == v1.target.pos.Line && strings.HasSuffix(v1.src, "\n") {
+		src2 := strings.TrimSuffix(v1.src, "\n")
+		if dsn, err := lintSrc(src2); err == nil {
+			c.Eval(1)
+			c.Count("last_line_without_final_break_with_properties", 1)
+			a, b := sortedDiagStrings(ds1), sortedDiagStrings(dsn)
+			if strings.Join(a, "\n") != strings.Join(b, "\n") {
+				c.Violation(fmt.Sprintf("C07:no-final-line-break:%s:%s", base.group, class),
+					fmt.Sprintf("%s construct with node properties %q on the last line (site %s): removing the final line break of the file changed the diagnostics", base.kind, prop, siteName),
+					map[string]interface{}{"src_without_final_break": src2, "with": a, "without": b})
+			}
+		}
+	}
 	// shift: k more blanks between the properties and the scalar text
 	k := r.Range(1, 5)
 	v2, ds2, obs2, ok := build(prop + c07Spaces(k))
@@ -1184,6 +1217,7 @@ func runC07(r *Run) {
 	r.Assume("node properties (&anchor, !!str, both in either order, 1-3 blanks after each) are not part of the scalar text: a diagnostic must keep its offset from the construct whether or not the scalar (value or key) carries them, and blanks between them and the text shift the report; aliases carry no position claim and are not generated; a number-typed plain value only gets an anchor (a !!str tag would change its kind); the diagnostic about a schedule element is reported at the element, which starts at the properties of its first key, and is not compared")
 	r.Assume("columns are counted in characters: sites u.* put 2-, 3- and 4-byte characters into EARLIER keys / flow siblings on the line of the construct; the diagnosed scalar itself stays ASCII")
 	r.Assume("a UTF-8 byte order mark at the start of the file is not a character of line 1")
+	r.Assume("an operand written with consecutive ! operators (!!x, ! !x, !  ! !x) is one sub-expression whose first character is the first !: a diagnostic about the operand (argument type, comparison, index, receiver) is anchored there, one about the inner expression after the last !")
 	r.Assume("positions embedded in message texts (previously defined at line:L,col:C) are not compared")
 	r.Assume("a generated case that yields a diagnostic outside its expectation list, or lacks the expected one, is counted and skipped (floor: < 3% of the cases)")
 	r.Assume("lines are counted like the YAML reader does (LF, CRLF, CR, NEL, LS, PS)")
@@ -1251,7 +1285,7 @@ func runC07(r *Run) {
 	// (b) + (c)
 	const nShifts = 3
 	fams = append(fams,
-		&Family{Name: "gen-expr", N: r.Q(2600, 110000), Do: func(c *Case) { c07GenCase(c, "expr", cat, nShifts) }},
+		&Family{Name: "gen-expr", N: r.Q(3200, 120000), Do: func(c *Case) { c07GenCase(c, "expr", cat, nShifts) }},
 		&Family{Name: "gen-key", N: r.Q(800, 30000), Do: func(c *Case) { c07GenCase(c, "key", cat, nShifts) }},
 		&Family{Name: "gen-value", N: r.Q(1000, 35000), Do: func(c *Case) { c07GenCase(c, "value", cat, nShifts) }},
 		&Family{Name: "gen-glob", N: r.Q(600, 25000), Do: func(c *Case) { c07GenCase(c, "glob", cat, nShifts) }},
@@ -1289,7 +1323,7 @@ func runC07(r *Run) {
 	if r.Counter("shifts_compared") < compared*2 {
 		r.Inconclusive(fmt.Sprintf("only %d shifts compared for %d cases", r.Counter("shifts_compared"), compared))
 	}
-	for _, k := range []string{"lexer", "lexer-eof", "parser", "sema-var", "sema-func", "sema-prop", "sema-type", "sema-arg", "sema-sub", "avail", "untrusted", "template", "unexpected-key", "duplicate-key", "shell-name", "runner-label", "permission-value", "event-type", "id-convention", "cron", "glob"} {
+	for _, k := range []string{"lexer", "lexer-eof", "parser", "sema-var", "sema-func", "sema-prop", "sema-type", "sema-arg", "sema-sub", "sema-not", "avail", "untrusted", "template", "unexpected-key", "duplicate-key", "shell-name", "runner-label", "permission-value", "event-type", "id-convention", "cron", "glob"} {
 		for _, st := range []string{"plain", "single", "double"} {
 			if k == "lexer-eof" && st == "single" {
 				continue // the unterminated literal needs an apostrophe, which a single-quoted scalar cannot hold without an escape
@@ -1415,6 +1449,40 @@ func runC07(r *Run) {
 	}
 	if r.Counter("property_variants_compared")*10 < compared*9 || r.Counter("property_blank_shifts_compared")*10 < compared*9 {
 		r.Inconclusive(fmt.Sprintf("node-property variants compared for only %d (blank shifts %d) of %d cases", r.Counter("property_variants_compared"), r.Counter("property_blank_shifts_compared"), compared))
+	}
+	{
+		// operands with consecutive ! operators: every anchor kind with at least 3 different chains,
+		// every chain (2, 3, 4 operators, with and without blanks) at 5 or more anchor kinds
+		tmpl := []string{"arg1", "arg2", "arg1-overloads", "rest2", "rest3", "compare-left", "index", "deref-receiver", "filter-receiver", "inner"}
+		chains := []string{"2", "2b", "3", "3b", "4"}
+		for _, t := range tmpl {
+			n := 0
+			for _, nb := range chains {
+				if r.SetHas("sub_node_anchors", "sema-not:"+t+"/"+nb) {
+					n++
+				}
+			}
+			if n < 3 {
+				r.Inconclusive(fmt.Sprintf("operand with consecutive ! operators: anchor kind %s compared with only %d different chains", t, n))
+			}
+		}
+		for _, nb := range chains {
+			n := 0
+			for _, t := range tmpl {
+				if r.SetHas("sub_node_anchors", "sema-not:"+t+"/"+nb) {
+					n++
+				}
+			}
+			if n < 5 {
+				r.Inconclusive(fmt.Sprintf("operand with consecutive ! operators: chain %s (b = blanks between them) compared at only %d anchor kinds", nb, n))
+			}
+		}
+	}
+	if r.Counter("last_line_without_final_break_with_properties") < 30 {
+		r.Inconclusive(fmt.Sprintf("only %d cases with node properties on the last line of a file without final line break", r.Counter("last_line_without_final_break_with_properties")))
+	}
+	if r.Counter("last_line_without_final_break_compared") < 30 {
+		r.Inconclusive(fmt.Sprintf("only %d cases with the construct on the last line of a file without final line break", r.Counter("last_line_without_final_break_compared")))
 	}
 	for n := 0; n <= 3; n++ {
 		if !r.SetHas("earlier_placeholders", fmt.Sprint(n)) {
